@@ -419,6 +419,8 @@ def load_contract_module(ct, reg, path, modname):
                         reg.ext_contracts[target] = con
         elif isinstance(node, ast.Assign) and isinstance(node.targets[0], ast.Name):
             mod.assigns[node.targets[0].id] = node.value
+            if node.targets[0].id == 'GROUP' and isinstance(node.value, ast.Constant):
+                reg.GROUPS[modname] = node.value.value
         elif isinstance(node, ast.ImportFrom):
             for a in node.names:
                 mod.imports[a.asname or a.name] = ('from', node.module or '', a.name)
